@@ -1,7 +1,10 @@
 mod proto;
 mod interp;
+mod enf;
 mod c02;
 mod c03;
+mod mgmt;
+mod c04;
 
 use proto::Recorder;
 use std::path::PathBuf;
@@ -45,6 +48,7 @@ fn main() {
         }
         "C02" => c02::run(&mut rec, &mut w, &tier, seed),
         "C03" => c03::run(&mut rec, &mut w, &tier, seed),
+        "C04" => c04::run(&mut rec, &mut w, &tier, seed),
         _ => { eprintln!("unknown property {}", prop); std::process::exit(2); }
     }
     rec.finish();
